@@ -47,13 +47,16 @@ class SelfCheck(threading.Thread):
 
     def __init__(self, tier):
         super().__init__(daemon=True)
-        self.tier, self.res, self.apa, self.err = tier, None, None, None
+        self.tier, self.res, self.apa, self.err, self.impl = tier, None, None, None, None
 
     def run(self):
         try:
             self.res = common.run_tlc("MC_Stats", cfg="MC_Stats_quick" if self.tier == "quick" else "MC_Stats",
                                       workers=WORKERS, want_cases=False, timeout=1500)
             self.apa = apalache("StatsInt", "SoundAndTight")
+            if self.tier != "quick":
+                # design model of the (repaired) operator table of reader/statistics.c: sound and as tight as Stats.Might
+                self.impl = common.run_tlc("MC_StatsImpl", cfg="MC_StatsImpl_fixed", workers=WORKERS, want_cases=False, timeout=900)
         except Exception as ex:            # reported by join_ok
             self.err = ex
 
@@ -68,6 +71,11 @@ class SelfCheck(threading.Thread):
         chk.part("model", mc_stats_states=r.distinct, mc_stats_wall_s=round(r.wall, 1),
                  invariants="Sound1 SoundSets SoundAbsent Tight MinMaxOk OverlapOk OrderOk FilterOk + ASSUME Vectors",
                  apalache_statsint=self.apa)
+        if self.impl is not None:
+            if self.impl.violated or self.impl.rc != 0:
+                raise common.InfraError("MC_StatsImpl_fixed failed (%s rc=%s)\n%s" % (self.impl.violated, self.impl.rc, self.impl.out[-2000:]))
+            chk.add_tlc(self.impl)
+            chk.part("model", mc_statsimpl_fixed_states=self.impl.distinct)
         if self.apa not in ("NoError", "unavailable"):
             raise common.InfraError("Apalache did not prove StatsInt.SoundAndTight: %s" % self.apa)
 
